@@ -1,6 +1,7 @@
 import N0Verif.Proofs.XPathSelect2
 import N0Verif.Proofs.XPathSelect3
 import N0Verif.Proofs.XPathAudit
+import N0Verif.Proofs.XPathListDeep
 /-!
 # C06 — wildcard and predicate steps select exactly the matching elements, in order
 
@@ -1312,6 +1313,211 @@ example : (XPath.get 20 flatRoot ['[', 'k', '=', '2', ']', '/', 'f'] .none) = (f
   exact this
 example : (XPath.first 20 flatRoot ['/', 'f'] .none) = (flatRoot, .ok (.list .n0 [.str ['a'], .str ['b']])) :=
   (C06_star_list_root .n0 flatList ['f'] .none plainKey_f (by decide) 20 (by decide) _ (by simp [slash])).2.2
+
+/-! ## a record list deeper in an n0list-rooted tree (worker `c06deep`)
+
+The root container is an `n0list`, the record list sits at a canonical position `P` below it, so `P` starts with an index
+(`[2]/a/b`, `[0][1]`, `[1]/c[0]`, …; unbounded depth).  `n0list._find` walks the leading index tokens (through nested lists),
+hands the first dict element to `n0dict._find` with `self` = the ROOT list (fix C06-f), and - when `P` consists of indexes
+only - is still the searching side when the record list is reached (its own `[*]` loop; a name or a condition is handed over).
+`xld_walk` (Proofs/XPathListDeep.lean) is the walk; the tree-level lemmas behind `C06_star` / `C06_pred` do the rest. -/
+
+/-- **C06 (fan-out, record list below a list root).**  For an n0list root and the list `rs` of dict records at the canonical
+position `P = [n]…` below it, `P[*]/f` and the shorthand `P/f` - written with or without the leading '/' - return
+`[r[f] for r in rs if f in r]` through `get` (the default when empty), item access (`IndexError` when empty) and `first` (a single
+match unwrapped); the tree is unchanged. -/
+theorem C06_star_list_deep (cls : Cls) (xs : List Val) (n : Nat) (rest : Pos) (f : Str) (lc : Cls) (rs : List Val) (d : Val)
+    (hp : PlainPos rest) (hf : PlainKey f) (hget : getAt (.list cls xs) (.idx n :: rest) = some (.list lc rs))
+    (hrs : ∀ r ∈ rs, isDict r = true) :
+    ∃ N, ∀ fuel ≥ N, ∀ lead ∈ [[], slash],
+      ∀ xp ∈ [lead ++ renderPos (.idx n :: rest) ++ bracket ['*'] ++ slash ++ f, lead ++ renderPos (.idx n :: rest) ++ slash ++ f],
+        XPath.get fuel (.list cls xs) xp d = (.list cls xs, .ok (selected (selectF f rs) d)) ∧
+        getItem fuel (.list cls xs) xp = (.list cls xs, selectedItem (selectF f rs)) ∧
+        first fuel (.list cls xs) xp d = (.list cls xs, .ok (firstOf (selectF f rs) d)) := by
+  refine ⟨2 * (Seg.idx n :: rest).length + rs.length + 6, fun fuel hfuel lead hlead xp hxp => ?_⟩
+  have := xld_star_api cls xs (.idx n :: rest) f lc rs d hp ⟨n, rest, rfl⟩ hf hget hrs fuel hfuel lead hlead xp hxp
+  simp only [selectF_eq] at this
+  exact this
+
+/-- **C06 (predicates, record list below a list root).**  For an n0list root and the list `rs` of dict records at the canonical
+position `P = [n]…` below it, `P[k op v]/f` and `P/k[text() op v]/../f` - any operator and literal spelling, with or without the
+leading '/' - return `f` of exactly the records that have `k` and whose `k` passes the comparison, in list order, through `get`,
+item access and `first`; the tree is unchanged.  (The `'..'` of the rewritten condition splits the `found` text - the canonical
+path of `P[j]/k`, which starts with the index of the root list - and resolves `P[j]` again from the root list.) -/
+theorem C06_pred_list_deep (cls : Cls) (xs : List Val) (n : Nat) (rest : Pos) (k f opx op vq v : Str) (lc : Cls) (rs : List Val)
+    (d : Val) (hp : PlainPos rest) (hk : FieldKey k) (hf : PlainKey f) (hop : OpSpell opx op) (hlit : LitSpell vq v)
+    (hv : PlainLit v) (hget : getAt (.list cls xs) (.idx n :: rest) = some (.list lc rs)) (hrs : ∀ r ∈ rs, isDict r = true)
+    (hg : ComparableK k v rs) :
+    ∃ N, ∀ fuel ≥ N, ∀ lead ∈ [[], slash],
+      ∀ xp ∈ [lead ++ renderPos (.idx n :: rest) ++ bracket (k ++ opx ++ vq) ++ slash ++ f,
+              lead ++ renderPos (.idx n :: rest) ++ slash ++ k ++ bracket (sTextFn ++ opx ++ vq) ++ slash ++ ['.', '.'] ++ slash ++ f],
+        XPath.get fuel (.list cls xs) xp d
+          = (.list cls xs, .ok (selected (selectWhere k f (condTest op (.str v)) rs) d)) ∧
+        getItem fuel (.list cls xs) xp = (.list cls xs, selectedItem (selectWhere k f (condTest op (.str v)) rs)) ∧
+        first fuel (.list cls xs) xp d = (.list cls xs, .ok (firstOf (selectWhere k f (condTest op (.str v)) rs) d)) := by
+  refine ⟨6 * (Seg.idx n :: rest).length + rs.length + 14, fun fuel hfuel lead hlead xp hxp => ?_⟩
+  have := xld_pred_api cls xs (.idx n :: rest) k f opx op vq v lc rs d hp ⟨n, rest, rfl⟩ hk hf hop hlit hv hget hrs hg.guard
+    fuel hfuel lead hlead xp hxp
+  simp only [selectWhere_eq] at this
+  exact this
+
+/-- a list-rooted tree with the flat record list at three positions: `[1]/a/b` (ends in a key: the tokens are `[1]`, `a`,
+`b[*]` / `b[k=2]`), `[1]/c[0]` (an index below a key) and `[2][1]` (indexes only: `n0list._find` reaches the record list itself) -/
+def deepListRoot : Val :=
+  .list .n0 [.str ['p'],
+    .dict .n0 [(['a'], .dict .n0 [(['b'], .list .n0 flatList)]), (['c'], .list .n0 [.list .n0 flatList])],
+    .list .n0 [.str ['z'], .list .n0 flatList]]
+
+/-- the model on the paths evaluated with the real code (`n0dict.convert_recursively(['p', {'a': {'b': R}, 'c': [R]}, ['z', R]])`,
+`R = [{'k':'1','f':'a'},{'k':'2','f':'b'}]`; the implementation returns the same values) -/
+theorem C06_star_list_deep_example :
+    (XPath.getItem 80 deepListRoot ['[', '1', ']', '/', 'a', '/', 'b', '[', '*', ']', '/', 'f']).2
+      = .ok (.list .n0 [.str ['a'], .str ['b']]) ∧
+    (XPath.getItem 80 deepListRoot ['/', '[', '1', ']', '/', 'a', '/', 'b', '/', 'f']).2 = .ok (.list .n0 [.str ['a'], .str ['b']]) ∧
+    (XPath.getItem 80 deepListRoot ['[', '2', ']', '[', '1', ']', '[', '*', ']', '/', 'f']).2
+      = .ok (.list .n0 [.str ['a'], .str ['b']]) ∧
+    (XPath.getItem 80 deepListRoot ['[', '2', ']', '[', '1', ']', '/', 'f']).2 = .ok (.list .n0 [.str ['a'], .str ['b']]) ∧
+    (XPath.getItem 80 deepListRoot ['/', '[', '1', ']', '/', 'c', '[', '0', ']', '/', 'f']).2
+      = .ok (.list .n0 [.str ['a'], .str ['b']]) := by
+  decide +kernel
+theorem C06_pred_list_deep_example :
+    (XPath.getItem 80 deepListRoot ['[', '1', ']', '/', 'a', '/', 'b', '[', 'k', '=', '2', ']', '/', 'f']).2 = .ok (.list .n0 [.str ['b']]) ∧
+    (XPath.first 80 deepListRoot ['[', '1', ']', '/', 'a', '/', 'b', '/', 'k', '[', 't', 'e', 'x', 't', '(', ')', '=', '2', ']', '/', '.', '.', '/', 'f']
+      (.str ['D'])).2 = .ok (.str ['b']) ∧
+    (XPath.getItem 80 deepListRoot ['[', '2', ']', '[', '1', ']', '[', 'k', '=', '2', ']', '/', 'f']).2 = .ok (.list .n0 [.str ['b']]) ∧
+    (XPath.getItem 80 deepListRoot ['/', '[', '2', ']', '[', '1', ']', '/', 'k', '[', 't', 'e', 'x', 't', '(', ')', '=', '2', ']', '/', '.', '.', '/', 'f']).2
+      = .ok (.list .n0 [.str ['b']]) ∧
+    (XPath.getItem 80 deepListRoot ['[', '1', ']', '/', 'c', '[', '0', ']', '[', 'k', '!', '=', '2', ']', '/', 'f']).2
+      = .ok (.list .n0 [.str ['a']]) ∧
+    (XPath.get 80 deepListRoot ['[', '2', ']', '[', '1', ']', '[', 'k', '=', '3', ']', '/', 'f'] (.str ['D'])).2 = .ok (.str ['D']) ∧
+    (XPath.getItem 80 deepListRoot ['[', '2', ']', '[', '1', ']', '[', 'k', '=', '3', ']', '/', 'f']).2 = .error .IndexError := by
+  decide +kernel
+/-- … and through the theorems (non-vacuity): `[2][1][k=2]/f` (indexes only) and `[1]/a/b[*]/f`, `/[1]/a/b/f` (merged last token) -/
+example : ∃ N, ∀ fuel ≥ N,
+    (XPath.get fuel deepListRoot ['[', '2', ']', '[', '1', ']', '[', 'k', '=', '2', ']', '/', 'f'] .none)
+      = (deepListRoot, .ok (.list .n0 [.str ['b']])) := by
+  obtain ⟨N, h⟩ := C06_pred_list_deep .n0 _ 2 [.idx 1] ['k'] ['f'] ['='] _ _ ['2'] .n0 flatList .none trivial fieldKey_k plainKey_f
+    .eq1 (.bare ['2']) ⟨by decide, by decide, by decide⟩ (show getAt deepListRoot [.idx 2, .idx 1] = some (.list .n0 flatList) by decide)
+    (by decide) (by decide)
+  refine ⟨N, fun fuel hfuel => ?_⟩
+  have := (h fuel hfuel [] (by simp) _ (List.mem_cons_self ..)).1
+  rw [show selectWhere ['k'] ['f'] (condTest ['=', '='] (.str ['2'])) flatList = [.str ['b']] by decide] at this
+  exact this
+example : ∃ N, ∀ fuel ≥ N,
+    (XPath.getItem fuel deepListRoot ['[', '1', ']', '/', 'a', '/', 'b', '[', '*', ']', '/', 'f'])
+      = (deepListRoot, .ok (.list .n0 [.str ['a'], .str ['b']])) ∧
+    (XPath.first fuel deepListRoot ['/', '[', '1', ']', '/', 'a', '/', 'b', '/', 'f'] .none)
+      = (deepListRoot, .ok (.list .n0 [.str ['a'], .str ['b']])) := by
+  obtain ⟨N, h⟩ := C06_star_list_deep .n0 _ 1 [.key ['a'], .key ['b']] ['f'] .n0 flatList .none
+    ⟨plainKey_a, ⟨by decide, by decide, by decide⟩, trivial⟩ plainKey_f
+    (show getAt deepListRoot [.idx 1, .key ['a'], .key ['b']] = some (.list .n0 flatList) by decide) (by decide)
+  refine ⟨N, fun fuel hfuel => ⟨?_, ?_⟩⟩
+  · exact (h fuel hfuel [] (by simp) _ (List.mem_cons_self ..)).2.1
+  · exact (h fuel hfuel slash (by simp) _ (List.mem_cons_of_mem _ (List.mem_cons_self ..))).2.2
+
+/-- **C06 (chained selections, record list below a list root).**  For an n0list root and the list `rs` of dict records at the
+canonical position `P = [n]…` below it, `P[k1 op v1]/items[k2 op v2]/f` (with or without the leading '/'): `get` and item access
+return the list of per-parent contributions (`selectChainedG true`; equal to the nested lists of `selectChained` when every
+`items` is a list - `selectChainedG_lists`), the default / `IndexError` when there is none; `first` returns `firstOf` of the
+`return_lists=False` contributions; the tree is unchanged.  The inner condition's `'..'` comes back to the right parent: the
+`found` text starts with the index of the root list and is resolved from the root list. -/
+theorem C06_chained_list_deep (cls : Cls) (xs : List Val) (n : Nat) (rest : Pos)
+    (k1 opx1 op1 vq1 v1 items k2 opx2 op2 vq2 v2 f : Str) (lc : Cls) (rs : List Val) (d : Val)
+    (hp : PlainPos rest) (hk1 : FieldKey k1) (hop1 : OpSpell opx1 op1) (hlit1 : LitSpell vq1 v1) (hv1 : PlainLit v1)
+    (hitems : PlainKey items) (hk2 : FieldKey k2) (hop2 : OpSpell opx2 op2) (hlit2 : LitSpell vq2 v2) (hv2 : PlainLit v2)
+    (hf : PlainKey f) (hget : getAt (.list cls xs) (.idx n :: rest) = some (.list lc rs)) (hrs : ∀ r ∈ rs, isDict r = true)
+    (hg : ComparableK k1 v1 rs) (hin : InnerRecs items k2 v2 rs) :
+    ∃ N, ∀ fuel ≥ N, ∀ lead ∈ [[], slash],
+      let xp := lead ++ renderPos (.idx n :: rest) ++ bracket (k1 ++ opx1 ++ vq1) ++ slash ++ items ++ bracket (k2 ++ opx2 ++ vq2)
+        ++ slash ++ f
+      let valsT := selectChainedG true k1 items (condTest op1 (.str v1)) k2 f (condTest op2 (.str v2)) rs
+      let valsF := selectChainedG false k1 items (condTest op1 (.str v1)) k2 f (condTest op2 (.str v2)) rs
+      XPath.get fuel (.list cls xs) xp d = (.list cls xs, .ok (selected valsT d)) ∧
+      getItem fuel (.list cls xs) xp = (.list cls xs, selectedItem valsT) ∧
+      first fuel (.list cls xs) xp d = (.list cls xs, .ok (firstOf valsF d)) := by
+  refine ⟨10 * (Seg.idx n :: rest).length + rs.length + (rs.map (sel2InnerLen items)).sum + 30, fun fuel hfuel lead hlead => ?_⟩
+  have := xld_chained_api cls xs (.idx n :: rest) k1 opx1 op1 vq1 v1 items k2 opx2 op2 vq2 v2 f lc rs d hp ⟨n, rest, rfl⟩ hk1 hop1
+    hlit1 hv1 hitems hk2 hop2 hlit2 hv2 hf hget hrs hg.guard hin.ok fuel hfuel lead hlead
+  simp only [chainedG_eq] at this
+  exact this
+
+/-- **C06 (chained selections, the root list is the outer record list).**  `[k1 op v1]/items[k2 op v2]/f` and
+`/[k1 op v1]/items[k2 op v2]/f` on an n0list `rs` of dict records: as `C06_chained_list_deep` with `P` empty. -/
+theorem C06_chained_list_root (lc : Cls) (rs : List Val) (k1 opx1 op1 vq1 v1 items k2 opx2 op2 vq2 v2 f : Str) (d : Val)
+    (hk1 : FieldKey k1) (hop1 : OpSpell opx1 op1) (hlit1 : LitSpell vq1 v1) (hv1 : PlainLit v1)
+    (hitems : PlainKey items) (hk2 : FieldKey k2) (hop2 : OpSpell opx2 op2) (hlit2 : LitSpell vq2 v2) (hv2 : PlainLit v2)
+    (hf : PlainKey f) (hrs : ∀ r ∈ rs, isDict r = true) (hg : ComparableK k1 v1 rs) (hin : InnerRecs items k2 v2 rs) :
+    ∃ N, ∀ fuel ≥ N, ∀ lead ∈ [[], slash],
+      let xp := lead ++ bracket (k1 ++ opx1 ++ vq1) ++ slash ++ items ++ bracket (k2 ++ opx2 ++ vq2) ++ slash ++ f
+      let valsT := selectChainedG true k1 items (condTest op1 (.str v1)) k2 f (condTest op2 (.str v2)) rs
+      let valsF := selectChainedG false k1 items (condTest op1 (.str v1)) k2 f (condTest op2 (.str v2)) rs
+      XPath.get fuel (.list lc rs) xp d = (.list lc rs, .ok (selected valsT d)) ∧
+      getItem fuel (.list lc rs) xp = (.list lc rs, selectedItem valsT) ∧
+      first fuel (.list lc rs) xp d = (.list lc rs, .ok (firstOf valsF d)) := by
+  refine ⟨rs.length + (rs.map (sel2InnerLen items)).sum + 26, fun fuel hfuel lead hlead => ?_⟩
+  have := xld_chained_root_api lc rs k1 opx1 op1 vq1 v1 items k2 opx2 op2 vq2 v2 f d hk1 hop1
+    hlit1 hv1 hitems hk2 hop2 hlit2 hv2 hf hrs hg.guard hin.ok fuel hfuel lead hlead
+  simp only [chainedG_eq] at this
+  exact this
+
+/-- the orders list (`ordersRoot`) under a key of a dict element (`[1]/o`) and inside a nested list (`[2][0]`) of a list root -/
+def ordersRootList : List Val :=
+  [.dict .n0 [(['i'], .str ['1']), (['t'], .list .n0 [.dict .n0 [(['s'], .str ['A']), (['q'], .int 1)], .dict .n0 [(['s'], .str ['B']), (['q'], .int 2)]])],
+   .dict .n0 [(['i'], .str ['2']), (['t'], .list .n0 [.dict .n0 [(['s'], .str ['B']), (['q'], .int 3)]])]]
+def deepOrdersRoot : Val :=
+  .list .n0 [.str ['p'], .dict .n0 [(['o'], .list .n0 ordersRootList)], .list .n0 [.list .n0 ordersRootList]]
+example : ordersRoot = .list .n0 ordersRootList := rfl
+/-- the model on chained paths run against the implementation (identical values: `[[3]]`, `[[2]]`, `[[2], [3]]` / first `[2, 3]`,
+a miss) -/
+theorem C06_chained_list_deep_example :
+    (XPath.getItem 90 deepOrdersRoot ['[', '1', ']', '/', 'o', '[', 'i', '=', '2', ']', '/', 't', '[', 's', '=', 'B', ']', '/', 'q']).2
+      = .ok (.list .n0 [.list .n0 [.int 3]]) ∧
+    (XPath.first 90 deepOrdersRoot ['/', '[', '1', ']', '/', 'o', '[', 'i', '=', '2', ']', '/', 't', '[', 's', '=', 'B', ']', '/', 'q'] .none).2
+      = .ok (.int 3) ∧
+    (XPath.getItem 90 deepOrdersRoot ['[', '2', ']', '[', '0', ']', '[', 'i', '=', '1', ']', '/', 't', '[', 's', '=', 'B', ']', '/', 'q']).2
+      = .ok (.list .n0 [.list .n0 [.int 2]]) ∧
+    (XPath.getItem 90 deepOrdersRoot ['[', '2', ']', '[', '0', ']', '[', 'i', '!', '=', '9', ']', '/', 't', '[', 's', '=', 'B', ']', '/', 'q']).2
+      = .ok (.list .n0 [.list .n0 [.int 2], .list .n0 [.int 3]]) ∧
+    (XPath.first 90 deepOrdersRoot ['[', '2', ']', '[', '0', ']', '[', 'i', '!', '=', '9', ']', '/', 't', '[', 's', '=', 'B', ']', '/', 'q'] .none).2
+      = .ok (.list .n0 [.int 2, .int 3]) ∧
+    (XPath.get 90 deepOrdersRoot ['/', '[', '2', ']', '[', '0', ']', '[', 'i', '=', '9', ']', '/', 't', '[', 's', '=', 'B', ']', '/', 'q'] (.str ['D'])).2
+      = .ok (.str ['D']) ∧
+    (XPath.first 90 ordersRoot ['/', '[', 'i', '!', '=', '9', ']', '/', 't', '[', 's', '=', 'B', ']', '/', 'q'] .none).2
+      = .ok (.list .n0 [.int 2, .int 3]) := by
+  decide +kernel
+theorem ordersRoot_inner : InnerRecs ['t'] ['s'] ['B'] ordersRootList := by
+  intro c kvs' x hm hl
+  simp only [ordersRootList, List.mem_cons, List.not_mem_nil, or_false] at hm
+  rcases hm with h | h <;> (injection h with _ h2; subst h2; simp [lookup] at hl; subst hl; left; exact ⟨_, _, rfl, by decide, by decide⟩)
+/-- … and through the theorems (non-vacuity) -/
+example : ∃ N, ∀ fuel ≥ N,
+    (XPath.getItem fuel deepOrdersRoot ['[', '2', ']', '[', '0', ']', '[', 'i', '=', '1', ']', '/', 't', '[', 's', '=', 'B', ']', '/', 'q'])
+      = (deepOrdersRoot, .ok (.list .n0 [.list .n0 [.int 2]])) ∧
+    (XPath.first fuel deepOrdersRoot ['[', '2', ']', '[', '0', ']', '[', 'i', '=', '1', ']', '/', 't', '[', 's', '=', 'B', ']', '/', 'q'] .none)
+      = (deepOrdersRoot, .ok (.int 2)) := by
+  obtain ⟨N, h⟩ := C06_chained_list_deep .n0 _ 2 [.idx 0] ['i'] ['='] _ _ ['1'] ['t'] ['s'] ['='] _ _ ['B'] ['q'] .n0 ordersRootList .none
+    trivial fieldKey_i .eq1 (.bare ['1']) plainLit_1 plainKey_t fieldKey_s .eq1 (.bare ['B']) plainLit_B plainKey_q
+    (show getAt deepOrdersRoot [.idx 2, .idx 0] = some (.list .n0 ordersRootList) by decide) (by decide) (by decide) ordersRoot_inner
+  refine ⟨N, fun fuel hfuel => ?_⟩
+  have := h fuel hfuel [] (by simp)
+  simp only at this
+  rw [show selectChainedG true ['i'] ['t'] (condTest ['=', '='] (.str ['1'])) ['s'] ['q'] (condTest ['=', '='] (.str ['B'])) ordersRootList
+      = [.list .n0 [.int 2]] by decide,
+    show selectChainedG false ['i'] ['t'] (condTest ['=', '='] (.str ['1'])) ['s'] ['q'] (condTest ['=', '='] (.str ['B'])) ordersRootList
+      = [.int 2] by decide] at this
+  exact ⟨this.2.1, this.2.2⟩
+example : ∃ N, ∀ fuel ≥ N,
+    (XPath.getItem fuel ordersRoot ['/', '[', 'i', '=', '2', ']', '/', 't', '[', 's', '=', 'B', ']', '/', 'q'])
+      = (ordersRoot, .ok (.list .n0 [.list .n0 [.int 3]])) := by
+  obtain ⟨N, h⟩ := C06_chained_list_root .n0 ordersRootList ['i'] ['='] _ _ ['2'] ['t'] ['s'] ['='] _ _ ['B'] ['q'] .none
+    fieldKey_i .eq1 (.bare ['2']) plainLit_2 plainKey_t fieldKey_s .eq1 (.bare ['B']) plainLit_B plainKey_q
+    (by decide) (by decide) ordersRoot_inner
+  refine ⟨N, fun fuel hfuel => ?_⟩
+  have := h fuel hfuel slash (by simp)
+  simp only at this
+  rw [show selectChainedG true ['i'] ['t'] (condTest ['=', '='] (.str ['2'])) ['s'] ['q'] (condTest ['=', '='] (.str ['B'])) ordersRootList
+      = [.list .n0 [.int 3]] by decide] at this
+  exact this.2.1
 
 /-! ## literal values a condition cannot express (finding C06-g, open)
 
